@@ -55,7 +55,13 @@ class Tracer:
         key = (fi.qualname, id(e))
         if key in seen or depth > self.max_depth:
             return []
-        seen.add(key)
+        seen.add(key)  # recursion stack (removed on exit), not a global visited set
+        try:
+            return self._origins(fi, e, at, chain, depth, seen)
+        finally:
+            seen.discard(key)
+
+    def _origins(self, fi: FuncInfo, e: ast.expr, at, chain, depth, seen) -> List[Origin]:
         rec = lambda f, x, a, ch=chain: self.origins(f, x, a, ch, depth + 1, seen)  # noqa: E731
         if isinstance(e, ast.Constant):
             if e.value is None:
